@@ -7,6 +7,7 @@
 (* EBNF items                                                              *)
 (*   [k |-> "ref", n |-> name]        [k |-> "lit", b |-> <<byte,..>>]         *)
 (*   [k |-> "cls", s |-> <<byte,..>>]  [k |-> "opt"/"star"/"plus", a |-> item]  *)
+(*   [k |-> "tok", ids |-> <<token id,..>>]   (token-identity terminal)       *)
 (*   [k |-> "rep", a |-> item, m |-> m, n |-> n or -1]                          *)
 (*   [k |-> "group", alts |-> << <<item,..>>, .. >>]                           *)
 (* Desugar turns it into a plain CFG: a set of productions <<lhs, rhs>>    *)
@@ -46,6 +47,8 @@ DItem(it, path) ==
     CASE it.k = "ref" -> [syms |-> <<NT(<<it.n>>)>>, prods |-> {}]
       [] it.k = "lit" -> [syms |-> [i \in DOMAIN it.b |-> T({it.b[i]})], prods |-> {}]
       [] it.k = "cls" -> [syms |-> <<T(SeqSet(it.s))>>, prods |-> {}]
+      (* a token-identity terminal <name> / <[ids]> : consumes ONE token whose id is in the set *)
+      [] it.k = "tok" -> [syms |-> <<<<"tk", SeqSet(it.ids)>>>>, prods |-> {}]
       [] it.k = "group" -> [syms |-> <<NT(path)>>, prods |-> DAlts(path, it.alts, path)]
       [] it.k = "opt" ->
             LET d == DItem(it.a, Append(path, 0)) IN
@@ -87,7 +90,7 @@ NullableNTs(P) == NullFix(P, {})
 RECURSIVE ProdFix(_, _)
 ProdFix(P, N) ==
     LET N2 == N \cup {p[1] : p \in {q \in P : \A i \in DOMAIN q[2] :
-                                      (q[2][i][1] = "t" /\ q[2][i][2] # {}) \/ (q[2][i][1] = "nt" /\ q[2][i][2] \in N)}}
+                                      (q[2][i][1] \in {"t", "tk"} /\ q[2][i][2] # {}) \/ (q[2][i][1] = "nt" /\ q[2][i][2] \in N)}}
     IN  IF N2 = N THEN N ELSE ProdFix(P, N2)
 ProductiveNTs(P) == ProdFix(P, {})
 
@@ -142,6 +145,15 @@ RECURSIVE PushBytes(_, _, _)
 PushBytes(G, chart, w) ==
     IF w = <<>> \/ chart[Len(chart)] = {} THEN chart
     ELSE PushBytes(G, PushByte(G, chart, Head(w)), Tail(w))
+
+(* push one token-identity symbol (a token taken as itself, not as bytes) *)
+PushTok(G, chart, t) ==
+    LET k == Len(chart)
+        scanned == {Advance(it) : it \in {x \in chart[k] : NextSym(x)[1] = "tk" /\ t \in NextSym(x)[2]}}
+    IN  Append(chart, IF scanned = {} THEN {} ELSE Close(G, chart, k, scanned, scanned))
+
+(* token ids that can come next as token-identity symbols *)
+NextToks(chart) == UNION {NextSym(it)[2] : it \in {x \in chart[Len(chart)] : NextSym(x)[1] = "tk"}}
 
 Dead(chart) == chart[Len(chart)] = {}
 AcceptingChart(chart, start) ==
